@@ -160,7 +160,23 @@ type WaitGroup struct {
 	wg sync.WaitGroup
 	n  int
 	w  waitq
+	// sema models the race annotations of sync.WaitGroup ("Wait must be
+	// synchronized with the first Add"): the real Wait is only ever called
+	// here with a zero counter, so it never makes that annotation itself. An
+	// Add that raises the counter from zero reads sema, the first task that has
+	// to block in Wait writes it; both accesses are plain and visible to the
+	// race detector (wgSemaRead/wgSemaWrite are neither norace nor inlined), so an Add from
+	// zero that is not ordered with a blocking Wait is reported exactly as
+	// `go test -race` reports it on the real type.
+	sema    int32
+	waiters int
 }
+
+//go:noinline
+func wgSemaRead(p *int32) int32 { return *p }
+
+//go:noinline
+func wgSemaWrite(p *int32) { *p = 0 }
 
 //go:norace
 func (w *WaitGroup) Add(d int) {
@@ -173,7 +189,11 @@ func (w *WaitGroup) Add(d int) {
 	s.lock()
 	w.n += d
 	zero := w.n == 0
+	first := d > 0 && w.n == d
 	s.unlock()
+	if first {
+		wgSemaRead(&w.sema)
+	}
 	w.wg.Add(d)
 	if zero {
 		s.wakeAll(&w.w)
@@ -201,17 +221,32 @@ func (w *WaitGroup) Wait() {
 	}
 	t := s.enter()
 	s.maybePreempt(t, "wg.wait")
+	counted := false
 	for {
 		s.lock()
 		n := w.n
+		firstWaiter := false
 		if n != 0 {
 			w.w.ts = push(w.w.ts, t)
+			firstWaiter = w.waiters == 0 && !counted
+			if !counted {
+				w.waiters++
+				counted = true
+			}
 		}
 		s.unlock()
+		if firstWaiter {
+			wgSemaWrite(&w.sema)
+		}
 		if n == 0 {
 			break
 		}
 		s.parkAs(t, "wg.wait", stWaiting)
+	}
+	if counted {
+		s.lock()
+		w.waiters--
+		s.unlock()
 	}
 	w.wg.Wait() // returns at once; keeps the genuine happens-before edge
 }
